@@ -233,8 +233,8 @@ def oracle(stream, header, ops, obs):
             te = [tuple(a[i:i + 3]) for i in range(2 + nt + nn, len(a) - 2, 3)]
             gw = {}
             for (e, s, t, w) in v.get("erefs", []):
-                gw[frozenset((s, t))] = w
-            if any(x not in nodes for x in tn) or any(gw.get(frozenset((s, t))) != w for (s, t, w) in te):
+                gw.setdefault(frozenset((s, t)), set()).add(w)
+            if any(x not in nodes for x in tn) or any(w not in gw.get(frozenset((s, t)), ()) for (s, t, w) in te):
                 return bad(k, "steiner-tree-is-not-inside-the-graph")
             par = {x: x for x in tn}
 
